@@ -564,3 +564,216 @@ Example C02_rs_session_guards :
   /\ sess_env env_xor (txr_parse exr_oti 5) (mk_rcfg 5 5 true false) (tx_fdt None :: exr_pkts)
      = ([POk; POk; POk; POk; POk; POk], [], [7], [], delivered_log).
 Proof. vm_compute. repeat split. Qed.
+
+From FluteV Require Import Proofs.C02MultiFdt.
+(* ===== block: C02MultiFdt ===== *)
+(* ---------------- the receiver level, an FDT instance that spans SEVERAL packets: Proofs/C02MultiFdt.v ----------------
+   The FDT instance is received by an inner object receiver (Model/Recv.v fr_push: or_push in the environment E_fdt on
+   or_new 0 1 MiB, restarted from ctx0 at every packet, its writer log replayed by apply_fdt_log).  The restart is
+   harmless (E_fdt's oracles ignore the context: the frame lemma of part 1 of the proof file); "the instance is received"
+   is the object-level theorem of C02Full at TOI 0, so the premises on the FDT packets are those of an object:
+   - fdt_pkt_multi: TOI 0, EXT_FDT = id, EXT_FTI = (foti, |d|) on EVERY packet, EXT_CENC absent or null, the payload is
+     the slice of the document d at the packet's (SBN, ESI) (genuine_pkt foti d), and the packet's EXT_TIME (else the
+     receiver's clock) is not behind the instance's Expires when the receiver checks it (fdt_live, per packet: the
+     offset kept is that of the last packet carrying EXT_TIME);
+   - foti a No-Code OTI, 0 < |d| <= 1 MiB (the inner receiver's memory limit), at most 4097 source blocks
+     [C02_session_multi_fdt_guards, block window]; any order, any duplication; a close-object flag on an FDT packet only
+     once the instance is recoverable with it (close_flag_ok) [C02_session_multi_fdt_guards, flag first];
+   - recoverable foti |d| (the FDT packets) and recoverable oti L (the object's packets).
+   C02_session_multi_fdt_delivers: ANY interleaving evs of such FDT packets and genuine packets of the object, provided a
+   packet of the object that comes while the FDT packets before it are not yet recoverable carries EXT_FTI = (oti, L),
+   no EXT_CENC and no close-object flag (as in C02_session_fdt_late_delivers).  Copies of the instance that arrive after
+   it is complete - before, among or after the object's packets - are covered: with cf_once they are ignored; without
+   it each starts a new reception of the same id, which may complete again (a second entry in rv_fdt_current), stay
+   partial, or be answered Err when it carries the close-object flag [C02_session_multi_fdt_late_copies]; the object is
+   delivered all the same.  Conclusion: session_delivered, as for the one-packet instance.
+   C02_session_multi_fdt_mix_delivers / _first_delivers: the shapes mix ++ pkts and fpkts ++ pkts (FDT first). *)
+Theorem C02_session_multi_fdt_delivers : forall E parse_fdt cfg oti content toi md5 now id foti d inst evs,
+  let L := lenN_ content in
+  let Ld := lenN_ d in
+  nocode_ok oti L -> toi <> 0 ->
+  nocode_ok foti Ld -> Ld <= 1048576 -> nb_blocks_of foti Ld <= 4097 ->
+  parse_fdt d = Some inst ->
+  fdt_entry_for (fi_files inst) (fi_oti inst) toi oti L md5 ->
+  writer_accepts E toi -> writes_succeed E toi -> md5_good E content md5 ->
+  L <= cf_max_cache cfg -> nb_blocks_of oti L <= 4097 ->
+  Forall (fun p => fdt_pkt_multi cfg inst now id foti d p \/ (a_toi p = toi /\ genuine_pkt oti content p = true)) evs ->
+  (forall pre p post, evs = pre ++ p :: post -> a_toi p = toi -> recoverable foti Ld (fdt_of pre) = false ->
+                      a_oti p = Some (oti, L) /\ a_cenc p = None /\ a_close_obj p = false) ->
+  close_flag_ok foti Ld (fdt_of evs) -> close_flag_ok oti L (obj_of evs) ->
+  recoverable foti Ld (fdt_of evs) = true -> recoverable oti L (obj_of evs) = true ->
+  let '(_, r, c) := recv_run E parse_fdt cfg recv0 (map (fun p => RvPush p now) evs) ctx0 in
+  session_delivered cfg inst content toi r c.
+Proof. exact session_multi_fdt_delivers. Qed.
+Print Assumptions C02_session_multi_fdt_delivers.
+
+Theorem C02_session_multi_fdt_mix_delivers : forall E parse_fdt cfg oti content toi md5 now id foti d inst mix pkts,
+  let L := lenN_ content in
+  let Ld := lenN_ d in
+  nocode_ok oti L -> toi <> 0 ->
+  nocode_ok foti Ld -> Ld <= 1048576 -> nb_blocks_of foti Ld <= 4097 ->
+  parse_fdt d = Some inst ->
+  fdt_entry_for (fi_files inst) (fi_oti inst) toi oti L md5 ->
+  writer_accepts E toi -> writes_succeed E toi -> md5_good E content md5 ->
+  L <= cf_max_cache cfg -> nb_blocks_of oti L <= 4097 ->
+  Forall (fun p => fdt_pkt_multi cfg inst now id foti d p \/ (a_toi p = toi /\ genuine_pkt oti content p = true)) mix ->
+  Forall (fun p => a_oti p = Some (oti, L) /\ a_cenc p = None /\ a_close_obj p = false) (obj_of mix) ->
+  Forall (fun p => a_toi p = toi) pkts ->
+  Forall (fun p => genuine_pkt oti content p = true) pkts ->
+  close_flag_ok foti Ld (fdt_of mix) -> recoverable foti Ld (fdt_of mix) = true ->
+  close_flag_ok oti L (obj_of mix ++ pkts) -> recoverable oti L (obj_of mix ++ pkts) = true ->
+  let '(_, r, c) := recv_run E parse_fdt cfg recv0 (map (fun p => RvPush p now) (mix ++ pkts)) ctx0 in
+  session_delivered cfg inst content toi r c.
+Proof. exact session_multi_fdt_mix_delivers. Qed.
+Print Assumptions C02_session_multi_fdt_mix_delivers.
+
+Theorem C02_session_multi_fdt_first_delivers : forall E parse_fdt cfg oti content toi md5 now id foti d inst fpkts pkts,
+  let L := lenN_ content in
+  let Ld := lenN_ d in
+  nocode_ok oti L -> toi <> 0 ->
+  nocode_ok foti Ld -> Ld <= 1048576 -> nb_blocks_of foti Ld <= 4097 ->
+  parse_fdt d = Some inst ->
+  fdt_entry_for (fi_files inst) (fi_oti inst) toi oti L md5 ->
+  writer_accepts E toi -> writes_succeed E toi -> md5_good E content md5 ->
+  L <= cf_max_cache cfg -> nb_blocks_of oti L <= 4097 ->
+  Forall (fdt_pkt_multi cfg inst now id foti d) fpkts ->
+  close_flag_ok foti Ld fpkts -> recoverable foti Ld fpkts = true ->
+  Forall (fun p => a_toi p = toi) pkts ->
+  Forall (fun p => genuine_pkt oti content p = true) pkts ->
+  close_flag_ok oti L pkts -> recoverable oti L pkts = true ->
+  let '(_, r, c) := recv_run E parse_fdt cfg recv0 (map (fun p => RvPush p now) (fpkts ++ pkts)) ctx0 in
+  session_delivered cfg inst content toi r c.
+Proof. exact session_multi_fdt_first_delivers. Qed.
+Print Assumptions C02_session_multi_fdt_first_delivers.
+
+(* the vocabulary, unfolded once *)
+Theorem C02_session_multi_fdt_statements : forall cfg inst now id foti d p evs,
+  (fdt_pkt_multi cfg inst now id foti d p <->
+   a_toi p = 0 /\ a_fdt_id p = Some id /\ a_oti p = Some (foti, lenN_ d)
+   /\ (a_cenc p = None \/ a_cenc p = Some CNull)
+   /\ genuine_pkt foti d p = true /\ fdt_live cfg inst p now)
+  /\ fdt_of evs = filter (fun p => a_toi p =? 0) evs
+  /\ obj_of evs = filter (fun p => negb (a_toi p =? 0)) evs.
+Proof. intros. split; [reflexivity|split; reflexivity]. Qed.
+Print Assumptions C02_session_multi_fdt_statements.
+
+(* the same over the object-level interface of C02_session_via_interface (any scheme that provides it): the session
+   theorem for any interleaving, the premises in the inductive form WF (Proofs/C02MultiFdt.v) *)
+Theorem C02_session_multi_fdt_via_interface :
+  forall E parse_fdt cfg oti content toi md5 al as_ nal n now,
+  ro_fec oti = FNoCode -> 0 < ro_e oti -> 0 < ro_b oti -> 0 < lenN_ content -> lenN_ content + ro_e oti < U64 ->
+  block_partitioning (ro_b oti) (lenN_ content) (ro_e oti) = (al, as_, nal, n) -> toi <> 0 ->
+  C02Full.Nice2 E content (toi, 0%nat) md5 (cf_max_cache cfg) n -> writer_accepts E toi ->
+  forall id inst f,
+  find (fun f => ff_toi f =? toi) (fi_files inst) = Some f -> ff_cenc f = CNull ->
+  match ff_oti f with Some x => Some x | None => fi_oti inst end = Some oti ->
+  ff_tlen f = lenN_ content -> ff_md5 f = md5 ->
+  forall foti d alF asF nalF nF,
+  ro_fec foti = FNoCode -> 0 < ro_e foti -> 0 < ro_b foti -> 0 < lenN_ d -> lenN_ d + ro_e foti < U64 ->
+  block_partitioning (ro_b foti) (lenN_ d) (ro_e foti) = (alF, asF, nalF, nF) ->
+  lenN_ d <= 1048576 -> nF <= 4097 -> parse_fdt d = Some inst ->
+  forall evs,
+  WF cfg toi now id inst (C02Full.genuine oti content al as_ nal n) pid_of (C02Full.covered al as_ nal n)
+     (C02Session.PktPre oti content toi al as_ nal n) foti d alF asF nalF nF [] [] evs ->
+  let '(_, r, c) := recv_run E parse_fdt cfg recv0 (map (fun p => RvPush p now) evs) ctx0 in
+  SessDone cfg content toi f r c.
+Proof. exact nocode_multi_core. Qed.
+Print Assumptions C02_session_multi_fdt_via_interface.
+
+(* the oracle schemes (Reed-Solomon FEC 5 / 129, RaptorQ / Raptor) through the same interface: the FDT instance in several
+   No-Code packets, the object in an oracle scheme (premises on the decoder oracle as in C02_rs_session_* / C02_fq_session_*,
+   here in their unfolded form), any interleaving (WF) *)
+Theorem C02_rs_session_multi_fdt_via_interface :
+  forall E parse_fdt cfg oti content rep toi md5 al as_ nal n now,
+  fec_oracle (ro_fec oti) = true -> 0 < ro_e oti -> 0 < ro_b oti -> 0 < lenN_ content -> lenN_ content + ro_e oti < U64 ->
+  block_partitioning (ro_b oti) (lenN_ content) (ro_e oti) = (al, as_, nal, n) -> toi <> 0 ->
+  (forall s sh d, s < n -> Callable oti al as_ nal s sh -> NoDup (map fst sh) ->
+     Forall (shard_ok oti content rep al as_ nal s) sh ->
+     e_fec E toi (ro_fec oti) s (k_of al as_ nal s) (ro_e oti) (bsz oti content al as_ nal s) sh = Some d ->
+     Good oti content al as_ nal n s d) ->
+  Mds E oti content rep toi al as_ nal n ->
+  C02RS.Nice2 E oti content (toi, 0%nat) md5 (cf_max_cache cfg) al as_ nal n -> writer_accepts E toi ->
+  forall id inst f,
+  find (fun f => ff_toi f =? toi) (fi_files inst) = Some f -> ff_cenc f = CNull ->
+  match ff_oti f with Some x => Some x | None => fi_oti inst end = Some oti ->
+  ff_tlen f = lenN_ content -> ff_md5 f = md5 ->
+  forall foti d alF asF nalF nF,
+  ro_fec foti = FNoCode -> 0 < ro_e foti -> 0 < ro_b foti -> 0 < lenN_ d -> lenN_ d + ro_e foti < U64 ->
+  block_partitioning (ro_b foti) (lenN_ d) (ro_e foti) = (alF, asF, nalF, nF) ->
+  lenN_ d <= 1048576 -> nF <= 4097 -> parse_fdt d = Some inst ->
+  forall evs,
+  WF cfg toi now id inst (genr oti content rep al as_ nal n) (rs_pid oti) (C02RS.covered oti al as_ nal n)
+     (pktprer oti content rep toi al as_ nal n) foti d alF asF nalF nF [] [] evs ->
+  let '(_, r, c) := recv_run E parse_fdt cfg recv0 (map (fun p => RvPush p now) evs) ctx0 in
+  SessDone cfg content toi f r c.
+Proof. exact rs_multi_core. Qed.
+Print Assumptions C02_rs_session_multi_fdt_via_interface.
+
+(* WF sF sO evs, given the symbols of the instance (sF) and of the object (sO) received so far: each packet still to come
+   is a packet of the instance or of the object; a close-object flag comes only when its object is recoverable with it;
+   a packet of the object that comes while the instance is not recoverable carries EXT_FTI (pktpre); in the end both
+   are recoverable *)
+Theorem C02_session_multi_fdt_wf : forall cfg toi now id inst gen pid cov pktpre foti d alF asF nalF nF sF sO p rest,
+  (WF cfg toi now id inst gen pid cov pktpre foti d alF asF nalF nF sF sO [] <->
+   C02Full.covered alF asF nalF nF sF /\ cov sO)
+  /\ (WF cfg toi now id inst gen pid cov pktpre foti d alF asF nalF nF sF sO (p :: rest) <->
+      (FdtPkt cfg id foti d inst now alF asF nalF nF p
+       /\ (a_close_obj p = true -> C02Full.covered alF asF nalF nF (pid_of p :: sF))
+       /\ WF cfg toi now id inst gen pid cov pktpre foti d alF asF nalF nF (pid_of p :: sF) sO rest)
+      \/ (a_toi p = toi /\ gen p /\ (~ C02Full.covered alF asF nalF nF sF -> pktpre p)
+          /\ (a_close_obj p = true -> cov (pid p :: sO))
+          /\ WF cfg toi now id inst gen pid cov pktpre foti d alF asF nalF nF sF (pid p :: sO) rest))
+  /\ (FdtPkt cfg id foti d inst now alF asF nalF nF p <->
+      a_toi p = 0 /\ a_fdt_id p = Some id /\ a_oti p = Some (foti, lenN_ d)
+      /\ (a_cenc p = None \/ a_cenc p = Some CNull) /\ C02Full.genuine foti d alF asF nalF nF p
+      /\ fdt_live cfg inst p now).
+Proof. intros. split; [reflexivity|split; reflexivity]. Qed.
+Print Assumptions C02_session_multi_fdt_wf.
+
+(* non-vacuity: a 10-byte FDT document sent with E = 4, B = 2 in three packets (0,0) (0,1) (1,0), shuffled and
+   duplicated, then ex_pkts (shuffled, duplicated), receive-once, through recv_run; and by the theorem *)
+Example C02_session_multi_fdt_example :
+  partition_of mx_foti 10 = (2, 1, 1, 2)
+  /\ map pid_of [f10; f00; f10; f01; f00] = [(1, 0); (0, 0); (1, 0); (0, 1); (0, 0)]
+  /\ sessx mx_parse (tx_cfg true false) ([f10; f00; f10; f01; f00] ++ ex_pkts)
+     = ([POk; POk; POk; POk; POk; POk; POk; POk; POk; POk], [], [7], [], [], 1%nat, delivered_log)
+  /\ sessx mx_parse (tx_cfg true false) (mx_mix ++ skipn 3 ex_pkts)
+     = ([POk; POk; POk; POk; POk; POk; POk; POk; POk; POk], [], [7], [], [], 1%nat, delivered_log).
+Proof. vm_compute. repeat split. Qed.
+
+Example C02_session_multi_fdt_by_theorem :
+  let '(_, r, c) := recv_run env_ok mx_parse (tx_cfg true false) recv0
+                             (map (fun p => RvPush p 100%Z) ([f10; f00; f10; f01; f00] ++ ex_pkts)) ctx0 in
+  session_delivered (tx_cfg true false) (tx_inst false None) ex_content 7 r c.
+Proof. exact mx_first_by_theorem. Qed.
+
+(* the guards lifted.  Flag first: the instance's last packet carries the close-object flag and arrives first - answered
+   Err, the instance forgotten, the rest never completes it: every symbol of the instance and of the object arrived,
+   nothing is delivered; in order the same packets are delivered.  Block window: a 4098-block instance (E = 1, B = 1),
+   block 1 then block 4097 - Err, the instance forgotten with the symbol of block 1; the other 4096 packets in order
+   never complete it; in order it is delivered. *)
+Example C02_session_multi_fdt_guards :
+  (recoverable mx_foti 10 [f10B; f00; f01] = true
+   /\ sessx mx_parse (tx_cfg true false) ([f10B; f00; f01] ++ ex_pkts)
+      = ([PErr; POk; POk; POk; POk; POk; POk; POk], [7], [], [], [(1, FReceiving)], 0%nat, [])
+   /\ sessx mx_parse (tx_cfg true false) ([f00; f01; f10B] ++ ex_pkts)
+      = ([POk; POk; POk; POk; POk; POk; POk; POk], [], [7], [], [], 1%nat, delivered_log))
+  /\ (nb_blocks_of bw_foti 4098 = 4098
+      /\ forallb (genuine_pkt bw_foti bw_doc) bw_bad = true
+      /\ recoverable bw_foti 4098 bw_bad = true
+      /\ bw_sess (bw_bad ++ ex_pkts) = (1%nat, [7], [], [(1, FReceiving)], 0%nat, [])
+      /\ bw_sess (bw_cycle ++ ex_pkts) = (0%nat, [], [7], [], 1%nat, delivered_log)).
+Proof. exact (conj mx_fdt_close_flag_early_refuted mx_fdt_block_window_refuted). Qed.
+
+(* copies of the instance after it is complete: ignored with receive-once; without it a flagged copy is answered Err,
+   a whole further cycle is pushed on rv_fdt_current again (3 entries after two more cycles), a partial one stays in
+   rv_fdt_receivers; the object is delivered in every case *)
+Example C02_session_multi_fdt_late_copies :
+  sessx mx_parse (tx_cfg true false) ([f00; f01; f10B; f10B; f00] ++ ex_pkts)
+  = ([POk; POk; POk; POk; POk; POk; POk; POk; POk; POk], [], [7], [], [], 1%nat, delivered_log)
+  /\ sessx mx_parse (tx_cfg false false) ([f00; f01; f10B; f10B; f00] ++ ex_pkts)
+     = ([POk; POk; POk; PErr; POk; POk; POk; POk; POk; POk], [], [7], [], [(1, FReceiving)], 1%nat, delivered_log)
+  /\ sessx mx_parse (tx_cfg false false) ([f00; f01; f10; f00; f01; f10] ++ ex_pkts ++ [f00; f01; f10])
+     = ([POk; POk; POk; POk; POk; POk; POk; POk; POk; POk; POk; POk; POk; POk], [], [7], [], [], 3%nat, delivered_log).
+Proof. exact mx_late_copies. Qed.
+(* ===== end block: C02MultiFdt ===== *)
